@@ -735,6 +735,10 @@ fn messages(rng: &mut Rng, data_lens: &[usize]) -> Vec<RefMsg> {
     v.push(RefMsg::Unknown { addr: 3, ty: 3, data: vec![0xA1] });
     v.push(RefMsg::Unknown { addr: 0xBEEF, ty: 0x77, data: vec![1, 2, 3] });
     v.push(RefMsg::Unknown { addr: 0, ty: 9, data: vec![] });
+    // the heaviest frames there are (every field at or next to its maximum: the bytes total more than 16 bits hold)
+    v.push(RefMsg::Unknown { addr: 0xFFFF, ty: 0xFF, data: vec![0xFF; 255] });
+    v.push(RefMsg::Unknown { addr: 0xFEFF, ty: 0xFE, data: vec![0xFE; 255] });
+    v.push(RefMsg::Data { offset: 0xFFFF, data: vec![0xFF; 255] });
     v
 }
 
@@ -770,6 +774,8 @@ fn reply_tapes(rng: &mut Rng, own: u16) -> Vec<(Vec<u8>, &'static str)> {
         v.push((with_sentinel(refs::wire(&RefMsg::Data { offset: rng.u16(), data: rng.bytes(n) })), "reply_maximum_length_frame"));
         v.push((with_sentinel(refs::wire(&RefMsg::Unknown { addr: own, ty: 0x7E, data: rng.bytes(n) })), "reply_maximum_length_frame"));
     }
+    v.push((with_sentinel(refs::wire(&RefMsg::Unknown { addr: 0xFFFF, ty: 0xFF, data: vec![0xFF; 255] })), "reply_heaviest_frame"));
+    v.push((with_sentinel(refs::wire(&RefMsg::Data { offset: 0xFFFF, data: vec![0xFF; 255] })), "reply_heaviest_frame"));
     // replies that carry MORE than 255 data pairs, with a length field that matches modulo 256 (or says FF) and a checksum
     // that is right for what was sent: undecodable, whatever arithmetic one does on the count
     for n in [256usize, 257, 300, 511] {
